@@ -434,8 +434,7 @@ def big_to_radix(m, mt, args, tys, dty):
         ds = [int(c) for c in reversed(str(mag))]
     else:
         # fork over digit count
-        conds = [mag == 0] + [z3.And(mag >= 10 ** (d - 1), mag < 10 ** d) for d in range(1, D + 1)] + [mag >= 10 ** D]
-        k = m.choose(conds)
+        k = m.choose_n(D + 2, lambda d: (mag == 0) if d == 0 else ((mag >= 10 ** D) if d == D + 1 else z3.And(mag >= 10 ** (d - 1), mag < 10 ** d)))
         if k == D + 1:
             raise BoundExceeded('to_radix: more than %d digits' % D)
         if k == 0:
@@ -683,8 +682,7 @@ def big_iter_u32(m, mt, args, tys, dty):
             ws.append(x & 0xffffffff)
             x >>= 32
         return U32Digits(ws)
-    conds = [x == 0] + [z3.And(x >= 2 ** (32 * (w - 1)), x < 2 ** (32 * w)) for w in range(1, W + 1)] + [x >= 2 ** (32 * W)]
-    k = m.choose(conds)
+    k = m.choose_n(W + 2, lambda w: (x == 0) if w == 0 else ((x >= 2 ** (32 * W)) if w == W + 1 else z3.And(x >= 2 ** (32 * (w - 1)), x < 2 ** (32 * w))))
     if k == W + 1:
         raise BoundExceeded('iter_u32_digits: more than %d words' % W)
     ws = [m.fresh('w') for _ in range(k)]
@@ -1513,3 +1511,180 @@ def ref_cmp_forward(m, mt, args, tys, dty):
     else:
         path = '<%s as %s>::%s' % (a_ty, trait, method)
     return m.call(path, [args[0].get(), args[1].get()], ['&' + a_ty, '&' + b_ty], dty)
+
+
+# ------------------------------------------------------------------ iterator protocol (dispatch on the runtime value)
+
+class CopiedV:
+    def __init__(self, inner):
+        self.inner = inner
+
+
+class TakeWhileV:
+    def __init__(self, inner, f):
+        self.inner, self.f, self.done = inner, f, False
+
+
+class ZipV:
+    def __init__(self, a, b):
+        self.a, self.b = a, b
+
+
+class ListIterV:
+    """by-value iterator over python list of values (Vec::into_iter, arrays, harness-made iterators)"""
+    def __init__(self, items):
+        self.items, self.pos = list(items), 0
+
+
+class RangeFromV:
+    def __init__(self, start, ty):
+        self.cur, self.ty = start, ty
+
+
+def it_next(m, it):
+    """-> element or None"""
+    it = deref(it)
+    if isinstance(it, IterV):
+        return iter_next(it)
+    if isinstance(it, CopiedV):
+        e = it_next(m, it.inner)
+        return None if e is None else deref(e)
+    if isinstance(it, ListIterV):
+        if it.pos >= len(it.items):
+            return None
+        it.pos += 1
+        return it.items[it.pos - 1]
+    if isinstance(it, ZipV):
+        a = it_next(m, it.a)
+        if a is None:
+            return None
+        b = it_next(m, it.b)
+        if b is None:
+            return None
+        return Agg('tuple', '()', [a, b])
+    if isinstance(it, TakeWhileV):
+        if it.done:
+            return None
+        e = it_next(m, it.inner)
+        if e is None:
+            return None
+        r = call_callable(m, Ref([it.f], 0), [Ref([e], 0)], 'bool')
+        if m.branch_bool(r):
+            return e
+        it.done = True
+        return None
+    if isinstance(it, U32Digits):
+        if it.pos >= len(it.words):
+            return None
+        it.pos += 1
+        return it.words[it.pos - 1]
+    if isinstance(it, RangeFromV):
+        v = it.cur
+        it.cur = v + 1
+        return v
+    if isinstance(it, Agg) and it.name == 'Range':
+        start, end = it.fields
+        if m.branch_bool(start < end):
+            it.fields[0] = start + 1
+            return start
+        return None
+    raise Unsupported('it_next on %r' % (it,))
+
+
+@summary(r'<.* as Iterator>::next')
+def generic_iter_next(m, mt, args, tys, dty):
+    e = it_next(m, args[0])
+    return NONE() if e is None else some(e)
+
+
+@summary(r'<.* as IntoIterator>::into_iter')
+def generic_into_iter(m, mt, args, tys, dty):
+    v = args[0]
+    if isinstance(v, VecV):
+        return ListIterV(v.items)
+    if isinstance(v, list):
+        return ListIterV(v)
+    if isinstance(v, Ref) and isinstance(deref(v), VecV):
+        return IterV(as_slice(v))
+    return v
+
+
+@summary(r'<.* as Iterator>::copied::<.*>')
+def iter_copied(m, mt, args, tys, dty):
+    return CopiedV(args[0])
+
+
+@summary(r'<.* as Iterator>::take_while::<.*>')
+def iter_take_while(m, mt, args, tys, dty):
+    return TakeWhileV(args[0], args[1])
+
+
+@summary(r'<.* as Iterator>::zip::<.*>')
+def iter_zip(m, mt, args, tys, dty):
+    return ZipV(args[0], args[1])
+
+
+@summary(r'<.* as Iterator>::count')
+def iter_count(m, mt, args, tys, dty):
+    n = 0
+    while it_next(m, args[0]) is not None:
+        n += 1
+    return n
+
+
+@summary(r'<.* as Iterator>::(all|any)::<.*>')
+def generic_iter_all(m, mt, args, tys, dty):
+    it, f = args
+    is_all = mt.group(1) == 'all'
+    holder = [f]
+    while True:
+        e = it_next(m, it)
+        if e is None:
+            return is_all
+        r = call_callable(m, Ref(holder, 0), [e], 'bool')
+        b = m.branch_bool(r)
+        if is_all and not b:
+            return False
+        if not is_all and b:
+            return True
+
+
+@summary(r'<.* as Iterator>::position::<.*>')
+def iter_position(m, mt, args, tys, dty):
+    it, f = args
+    holder = [f]
+    i = 0
+    while True:
+        e = it_next(m, it)
+        if e is None:
+            return NONE()
+        r = call_callable(m, Ref(holder, 0), [e], 'bool')
+        if m.branch_bool(r):
+            return some(i)
+        i += 1
+
+
+@summary(r'<.* as Iterator>::fold::<.*>')
+def iter_fold(m, mt, args, tys, dty):
+    it, acc, f = args
+    holder = [f]
+    while True:
+        e = it_next(m, it)
+        if e is None:
+            return acc
+        acc = call_callable(m, Ref(holder, 0), [acc, e], dty)
+
+
+@summary(r'<std::ops::RangeFrom<(%s)> as IntoIterator>::into_iter#' % INT)
+def _unused_rangefrom(m, mt, args, tys, dty):
+    pass
+
+
+@summary(r'<std::vec::Vec<.*> as Extend<.*>>::extend::<.*>')
+def vec_extend(m, mt, args, tys, dty):
+    v = deref(args[0])
+    while True:
+        e = it_next(m, args[1])
+        if e is None:
+            return UNIT()
+        v.items.append(deref(e) if isinstance(e, Ref) else e)
